@@ -141,4 +141,29 @@ PROPS["C14"] = {
     "level_note": "Trusted: Lean kernel; the heap abstraction (only device-node records are shared mutable state reachable from Apply).",
 }
 
+PROPS["C17"] = {
+    "level": "translation_validation",
+    "streams": ["schema"],
+    "ops": ["verdicts"],
+    "trusted_base": ["the Lean draft-07 semantics in CdiModel/Schema.lean define what the schema files mean; gojsonschema's conformance to it is established by this correspondence only",
+                     "factgen F8: schema.json/defs.json -> Schema term ($ref resolution, keyword classification)",
+                     "yaml/json text codecs (documents are generated at the value level and rendered)"],
+    "assumptions": ["documents have no duplicate member names", "I9: byte entry points may add the annotation verdict, identically for both encodings"],
+    "technique": "translation validation: Lean draft-07 evaluator over the regenerated schema term vs gojsonschema through every entry point x encoding x schema choice; Lean theorems for the glue (none/nil accept, entry points agree on well-formed annotations, encoding independence)",
+    "level_text": "The schema files are regenerated into a Lean Schema term on every run and evaluated by a Lean definition of draft-07 (type, properties, required, items, patternProperties, minimum, maximum on exact decimals). Documents generated from the Spec shape - valid ones, and one violation of each keyword at each level (wrong member types incl. scalars, missing required members, extra members, numbers at and beyond every bound incl. +-2^63 and 2^32, fractions, 7.0) - are pushed through ValidateData (JSON and YAML bytes), ValidateFile (.json and .yaml), ValidateReader and ReadAndValidate for the builtin schema, an externally loaded copy, the none schema and a nil schema; every verdict must equal the Lean verdict, JSON and YAML bytes must agree, none/nil must accept. Kernel-checked theorems cover the glue: a nil or none schema accepts every document, all entry points return the engine verdict on documents whose annotations are well-formed, and the byte entry point is encoding-independent.",
+    "level_note": "Partial: engine conformance is tested, not proved. Trusted: Lean kernel for the glue theorems; factgen; renderers.",
+}
+
+PROPS["C18"] = {
+    "level": "proof",
+    "streams": ["schema"],
+    "ops": ["typed"],
+    "trusted_base": ["encoding/json struct encoding modelled by CdiModel/Encode.lean per the struct tags (F3)",
+                     "draft-07 semantics of CdiModel/Schema.lean on the regenerated schema term (F8); gojsonschema conformance via C17"],
+    "assumptions": ["hook timeouts within 0..2^32-1 (property statement); integer fields within their Go types"],
+    "technique": "Lean 4 proof over the regenerated schema term: every library-valid Spec's JSON encoding validates; correspondence: library-valid typed Specs with numeric extremes through schema.Validate, the written .json/.yaml files through ValidateFile, ReadSpec/WriteSpec with the schema installed as validator",
+    "level_text": "Kernel-checked theorem: for every Spec accepted by the validation model (C05) whose integer fields are within their Go types and whose hook timeouts are within 0..2^32-1, the JSON value encoding/json produces validates against the builtin schema term regenerated from schema.json/defs.json. Tied to the code by generating library-valid typed Specs over all optional fields with the extremes of every integer field, validating them with schema.Validate, writing them with Cache.WriteSpec as .json and .yaml and validating the files with ValidateFile, and reading/writing them with the builtin schema installed through cdi.SetSpecValidator.",
+    "level_note": "Trusted: Lean kernel; Encode model; factgen. That the real validator implements the Lean semantics is C17's correspondence.",
+}
+
 NOT_APPLICABLE = {}
